@@ -408,52 +408,76 @@ func runC12(c *Ctx) {
 			R.Add("E3.field", shortFn(r.Fn)+" / "+want.Field, c.P.RelPos(r.Fn.Pos()), st, d)
 		}
 	}
+	// ---- every outstanding request is examined by the matching loop
+	{
+		R.Rules["S.match-all"] = "the matching loop ranges over the whole table of outstanding requests: an entry that does not match leads to the next entry (not out of the loop), and nothing is completed unless an entry matched"
+		ok, d := false, "no range loop over the outstanding table that tests the response predicate found"
+		for _, b := range onResp.Blocks {
+			iff, isIf := b.Instrs[len(b.Instrs)-1].(*ssa.If)
+			if !isIf {
+				continue
+			}
+			cond := iff.Cond
+			neg := false
+			for {
+				u, isU := cond.(*ssa.UnOp)
+				if !isU || u.Op != token.NOT {
+					break
+				}
+				cond, neg = u.X, !neg
+			}
+			call, isC := cond.(*ssa.Call)
+			if !isC {
+				continue
+			}
+			if _, f, isF := fieldLoad(call.Call.Value); !isF || f != "HasRespondFunc" {
+				continue
+			}
+			// the argument is the key of a range over the outstanding map
+			ex, isEx := call.Call.Args[0].(*ssa.Extract)
+			if !isEx {
+				d = "the predicate is not applied to the key of a range over the outstanding table"
+				continue
+			}
+			nx, isNx := ex.Tuple.(*ssa.Next)
+			if !isNx {
+				continue
+			}
+			head := nx.Block()
+			miss := b.Succs[1]
+			if neg {
+				miss = b.Succs[0]
+			}
+			// follow plain jumps
+			for k := 0; k < 4 && miss != head; k++ {
+				if len(miss.Instrs) == 1 && len(miss.Succs) == 1 {
+					miss = miss.Succs[0]
+				} else {
+					break
+				}
+			}
+			if miss == head {
+				ok, d = true, ""
+			} else {
+				ok, d = false, "when an outstanding request does not match, the loop is left instead of trying the next one: with several commands outstanding a correct response is dropped (or given to another request) depending on map iteration order"
+			}
+		}
+		st := report.Discharged
+		if !ok {
+			st = report.Violated
+		}
+		R.Add("S.match-all", shortFn(onResp)+" / a non-matching entry leads to the next entry", c.P.RelPos(onResp.Pos()), st, d)
+		R.Require("S.match-all", 1, "")
+	}
 	// ---- 3/4. completion send + delete; fall-through
 	{
 		okDel, okFall := false, false
 		nSends := 0
 		var badDel []string
+		nSends, okDel, badDel = c.replyThenDelete()
+		_ = nSends
 		for _, b := range writeFn.Blocks {
-			for i, ins := range b.Instrs {
-				if s, ok := ins.(*ssa.Send); ok {
-					if _, f, ok := fieldLoad(s.Chan); ok && f == "replyChan" {
-						nSends++
-						// the record the reply channel belongs to, and the key it was found under
-						var key ssa.Value
-						if ld, isLd := s.Chan.(*ssa.UnOp); isLd {
-							if fa, isFA := ld.X.(*ssa.FieldAddr); isFA {
-								if ex, isEx := fa.X.(*ssa.Extract); isEx {
-									switch t := ex.Tuple.(type) {
-									case *ssa.Lookup:
-										key = t.Index
-									case *ssa.Next:
-										// range over the outstanding map: key is extract #1 of the same Next
-										for _, ref := range *t.Referrers() {
-											if e2, isE := ref.(*ssa.Extract); isE && e2.Index == 1 {
-												key = e2
-											}
-										}
-									}
-								}
-							}
-						}
-						deleted := false
-						for _, nx := range b.Instrs[i+1:] {
-							if del, isDel := isBuiltinCall(nx, "delete"); isDel && key != nil && del.Call.Args[1] == key {
-								deleted = true
-							}
-						}
-						// a drained queued command (never recorded) has nothing to delete
-						if key == nil {
-							deleted = true
-						}
-						if deleted {
-							okDel = true
-						} else {
-							badDel = append(badDel, c.P.RelPos(s.Pos()))
-						}
-					}
-				}
+			for _, ins := range b.Instrs {
 				if call, ok := ins.(*ssa.Call); ok && call.Call.StaticCallee() == onResp {
 					// result used in an If whose false edge reaches defaultReplyEvent
 					for _, ref := range *call.Referrers() {
@@ -508,4 +532,74 @@ func runC12(c *Ctx) {
 	R.Require("E3.command", 2, "")
 	R.Require("S.complete", 3, "")
 	R.Explain = "Structural necessary conditions of command/response matching, for all schedules: one generator hands out serials; a command is recorded, encoded and timed out under the serial drawn for it and written once; each response type is correlated through the field that echoes the serial (read at the standard's offset), 0x1003 only against an outstanding 0x9003; the matched key travels with the completion, delivery is followed by deleting the record, and unmatched traffic is still answered. Matching over concrete concurrent histories is not decided."
+}
+
+// replyThenDelete: every delivery to the reply channel of a recorded request is followed by deleting the record under
+// the key it is stored with (shared by C12 and C13: a stale record is completed twice, or answered again at teardown
+// on a channel its caller has already closed).
+func (c *Ctx) replyThenDelete() (nSends int, okDel bool, badDel []string) {
+	for _, sfn := range c.RepoFuncs("service") {
+		for _, b := range sfn.Blocks {
+			for i, ins := range b.Instrs {
+				s, ok := ins.(*ssa.Send)
+				if !ok {
+					continue
+				}
+				if _, f, ok := fieldLoad(s.Chan); !ok || f != "replyChan" {
+					continue
+				}
+				nSends++
+				// the record the reply channel belongs to, and the key it is (or was just) stored under
+				var key ssa.Value
+				recorded := false
+				if ld, isLd := s.Chan.(*ssa.UnOp); isLd {
+					if fa, isFA := ld.X.(*ssa.FieldAddr); isFA {
+						switch x := fa.X.(type) {
+						case *ssa.Extract:
+							switch t := x.Tuple.(type) {
+							case *ssa.Lookup:
+								key, recorded = t.Index, true
+							case *ssa.Next:
+								if rg, isRg := t.Iter.(*ssa.Range); isRg {
+									if _, isMap := rg.X.Type().Underlying().(*types.Map); isMap {
+										recorded = true
+										for _, ref := range *t.Referrers() {
+											if e2, isE := ref.(*ssa.Extract); isE && e2.Index == 1 {
+												key = e2
+											}
+										}
+									}
+								}
+							}
+						default:
+							// a message that this function stored into the outstanding table: record[k] = x
+							for _, b2 := range sfn.Blocks {
+								for _, i2 := range b2.Instrs {
+									if mu, isMU := i2.(*ssa.MapUpdate); isMU && mu.Value == fa.X {
+										key, recorded = mu.Key, true
+									}
+								}
+							}
+						}
+					}
+				}
+				if !recorded {
+					okDel = okDel || false
+					continue // a queued command that was never recorded
+				}
+				deleted := false
+				for _, nx := range b.Instrs[i+1:] {
+					if del, isDel := isBuiltinCall(nx, "delete"); isDel && key != nil && del.Call.Args[1] == key {
+						deleted = true
+					}
+				}
+				if deleted {
+					okDel = true
+				} else {
+					badDel = append(badDel, c.P.RelPos(s.Pos()))
+				}
+			}
+		}
+	}
+	return
 }
